@@ -734,7 +734,6 @@ func checkDefaultConfig(c *core.Ctx) {
 	}
 }
 
-
 // ---- R18.6 a module configuration handed to Instantiate is never written (host resources of one call do not stick to it) ----
 
 func checkModuleConfigNotWritten(c *core.Ctx) {
